@@ -10,6 +10,7 @@
   rank returns from `mpi_skel::run` with the same map, and the map names the rank that ran each job.
 -/
 import PomerolModel.Model.Dispatcher
+import PomerolModel.Model.DispatcherDedicated
 import Driver.Util
 
 namespace Driver.Disp
@@ -126,6 +127,93 @@ def checkRound (P : Nat) (k : Nat) (compl : List Int) (lines : List String)
   if !(tally.notes.any (·.1 == "tests")) then tally := { tally with notes := tally.notes ++ [("tests", tests.length)] }
   return tally
 
+/-! ### dedicated-master pattern (`Model/DispatcherDedicated.lean`) -/
+
+/-- Events a step of the dedicated-master model makes rank `r` emit (ranks = pool index + 1). -/
+def stepEventsD (s s' : Pomerol.Model.DispD.SysD) (r : Nat) : List Ev :=
+  let newLog := s'.log.drop s.log.length
+  let runs : List Ev := newLog.flatMap fun (j, w) => [Ev.run (w + 1) j, Ev.send (w + 1) 0 0 (-1)]
+  let newFin : List Ev := (List.range s.N).filterMap fun i =>
+    if !(s.m.fin.getD i false) && s'.m.fin.getD i false then some (Ev.send 0 (i + 1) 2 (-1)) else none
+  let newD := (s'.m.dmap.take (s'.m.dmap.length - s.m.dmap.length)).reverse
+  let orders : List Ev := newD.map fun (j, w) => Ev.send 0 (w + 1) 1 j
+  if r = 0 then newFin ++ orders else runs
+
+def checkRoundD (P : Nat) (k : Nat) (jobs : List Nat) (lines : List String)
+    (maps : List (Nat × List (Nat × Nat))) (exits : List Nat) (tally : Driver.Tally) : IO Driver.Tally := do
+  let mut tally := tally
+  let mut implEv : Array (List Ev) := Array.replicate P []
+  let mut tests : List (Nat × Bool) := []
+  let mut runs : List (Nat × Nat) := []
+  for l in lines do
+    match Driver.toks l with
+    | ["t", r, b] => tests := tests ++ [(r.toNat!, b == "1")]
+    | ["s", a, b, c, d] =>
+      let src := a.toNat!
+      if src < P then implEv := implEv.modify src (· ++ [Ev.send a.toInt! b.toInt! c.toInt! d.toInt!])
+    | ["r", r, j] =>
+      let rk := r.toNat!
+      if rk < P then implEv := implEv.modify rk (· ++ [Ev.run r.toInt! j.toInt!])
+      runs := runs ++ [(j.toNat!, rk)]
+    | _ => pure ()
+  -- ---------------- property oracle ----------------
+  let mut propOk := true
+  for j in jobs do
+    let cnt := (runs.filter (·.1 == j)).length
+    if cnt != 1 then
+      IO.println s!"PROPFAIL round={k} (dedicated master) job {j} executed {cnt} times"; propOk := false
+  if runs.any (fun x => !(jobs.contains x.1)) then
+    IO.println s!"PROPFAIL round={k} (dedicated master) a job outside the round was executed"; propOk := false
+  if runs.any (fun x => x.2 == 0) then
+    IO.println s!"PROPFAIL round={k} (dedicated master) the master, which is not in the worker pool, executed a job"; propOk := false
+  match maps.find? (·.1 == 0) with
+  | none => IO.println s!"PROPFAIL round={k} (dedicated master) the master did not leave its loop"; propOk := false
+  | some (_, m) =>
+    for j in jobs do
+      let who := (runs.find? (·.1 == j)).map (·.2)
+      let said := (m.find? (·.1 == j)).map (·.2)
+      if who != said then
+        IO.println s!"PROPFAIL round={k} (dedicated master) map says job {j} -> {said}, executed by {who}"; propOk := false
+    if m.length != jobs.length then
+      IO.println s!"PROPFAIL round={k} (dedicated master) map has {m.length} entries for {jobs.length} jobs"; propOk := false
+  for r in (List.range P).drop 1 do
+    if !exits.contains r then
+      IO.println s!"PROPFAIL round={k} (dedicated master) worker rank {r} did not leave its loop"; propOk := false
+  if !propOk then tally := tally.pfail
+  -- ---------------- correspondence ----------------
+  let N := P - 1
+  let mut s := Pomerol.Model.DispD.init N jobs
+  let mut modEv : Array (List Ev) := Array.replicate P []
+  modEv := modEv.modify 0 (· ++ (s.m.dmap.reverse.map fun (j, w) => Ev.send 0 (w + 1) 1 j))
+  let mut idx := 0
+  for (r, b) in tests do
+    idx := idx + 1
+    match Pomerol.Model.DispD.step s r b with
+    | none =>
+      IO.println s!"MISMATCH round={k} (dedicated master) test #{idx} (rank {r}, seen={b}) is not enabled in the model"
+      return tally.mismatch
+    | some s' =>
+      if r < P then modEv := modEv.modify r (· ++ stepEventsD s s' r)
+      s := s'
+  for r in List.range P do
+    if modEv[r]! != implEv[r]! then
+      IO.println s!"MISMATCH round={k} (dedicated master) rank {r} events differ: model={(modEv[r]!).map evStr} impl={(implEv[r]!).map evStr}"
+      return tally.mismatch
+  if !Pomerol.Model.DispD.allExited s then
+    IO.println s!"MISMATCH round={k} (dedicated master) implementation left its loops but the model has not (master exited: {s.m.exited}, workers: {repr s.ws})"
+    return tally.mismatch
+  match maps.find? (·.1 == 0) with
+  | some (_, m) =>
+    for j in jobs do
+      if (dmapGet s.m.dmap j).map (· + 1) != (m.find? (·.1 == j)).map (·.2) then
+        IO.println s!"MISMATCH round={k} (dedicated master) DispatchMap differs from the model's at job {j}"
+        return tally.mismatch
+  | none => pure ()
+  tally := (tally.bump "rounds_dedicated").ok
+  tally := { tally with notes := tally.notes.map fun (key, n) => if key == "tests" then (key, n + tests.length) else (key, n) }
+  if !(tally.notes.any (·.1 == "tests")) then tally := { tally with notes := tally.notes ++ [("tests", tests.length)] }
+  return tally
+
 /-- The whole log of one harness run: `P <n>` header line, then rounds. -/
 def run (lines : Array String) : IO Unit := do
   let mut tally : Driver.Tally := {}
@@ -135,9 +223,13 @@ def run (lines : Array String) : IO Unit := do
   let mut maps : List (Nat × Nat × List (Nat × Nat)) := []   -- (round, rank, map)
   let mut rounds : List (Nat × List Int × List String) := []
   let mut hang := false
+  let mut dedicated := false
+  let mut exits : List (Nat × Nat) := []     -- (round, rank) of workers that left the dedicated-master loop
   for line in lines do
     match Driver.toks line with
     | ["P", p] => P := p.toNat!
+    | ["mode", "nomaster"] => dedicated := true
+    | ["x", r, k] => exits := exits ++ [(k.toNat!, r.toNat!)]
     | "round" :: k :: _ :: cs =>
       if let some (k0, c0) := cur then rounds := rounds ++ [(k0, c0, buf)]
       cur := some (k.toNat!, cs.map (·.toInt!)); buf := []
@@ -153,7 +245,10 @@ def run (lines : Array String) : IO Unit := do
   if !hang then
     for (k, c, ls) in rounds do
       let ms := (maps.filter (·.1 == k)).map fun (_, r, m) => (r, m)
-      tally ← checkRound P k c ls ms tally
+      if dedicated then
+        tally ← checkRoundD P k (c.map (·.toNat)) ls ms ((exits.filter (·.1 == k)).map (·.2)) tally
+      else
+        tally ← checkRound P k c ls ms tally
   tally.report
 
 end Driver.Disp
